@@ -477,10 +477,18 @@ class WF:
         return out
 
 
+WF_SECONDS = [0.0]   # accumulated analysis time of this process (constraint generation + z3)
+
+
 def check_body(text, optab, sub_sigs=None, is_sub=False):
     if not is_sub and text.strip() == "return NOP();":
         return []
-    return WF(text, optab, sub_sigs, is_sub).run()
+    import time
+    t0 = time.time()
+    try:
+        return WF(text, optab, sub_sigs, is_sub).run()
+    finally:
+        WF_SECONDS[0] += time.time() - t0
 
 
 def sub_signatures(compiler):
